@@ -463,9 +463,9 @@ def fill_key(obj):
     return json.dumps([obj[k] for k in FILL_FIELDS], sort_keys=True)
 
 
-def enumerate_cases(ctx, fills, label="design+cases", maxparts=3, mincounts="{0, 2}", ddofs="{0, 1}"):
+def enumerate_cases(ctx, fills, label="design+cases", maxparts=3, designparts=3, mincounts="{0, 2}", ddofs="{0, 1}"):
     tla_fills = "{" + ", ".join(T.tla_value({k: f[k] for k in FILL_FIELDS}) for f in fills) + "}"
-    consts = {"Fills": TLA(tla_fills), "MaxParts": maxparts, "MinCounts": TLA(mincounts), "Ddofs": TLA(ddofs)}
+    consts = {"Fills": TLA(tla_fills), "MaxParts": maxparts, "DesignParts": designparts, "MinCounts": TLA(mincounts), "Ddofs": TLA(ddofs)}
     spec, cfg = ctx.model(ctx.spec("frame", "GroupByMC.tla"), consts, invariants=INVARIANTS)
     out, r = ctx.tlc_cases(spec, cfg, label=label, timeout=3000)
     kinds = {fill_key(f): f["kinds"] for f in fills}
@@ -658,10 +658,11 @@ def setup_scratch(ctx):
 def run(ctx):
     setup_scratch(ctx)
     fills = make_fills(ctx)
-    cases, layouts, _ = enumerate_cases(ctx, fills, ddofs=ctx.pick("{0, 1}", "{0, 1, 2}"), mincounts=ctx.pick("{0, 2}", "{0, 1, 3}"))
-    items, total_pairs, sampled = pair_items(ctx, cases, layouts, ctx.pick(3600, 30000))
+    cases, layouts, _ = enumerate_cases(ctx, fills, designparts=ctx.pick(2, 3), ddofs=ctx.pick("{0, 1}", "{0, 1, 2}"),
+                                        mincounts=ctx.pick("{0, 2}", "{0, 1, 3}"))
+    items, total_pairs, sampled = pair_items(ctx, cases, layouts, ctx.pick(3000, 30000))
     replay_cases(ctx, items)
-    nrec = ctx.pick(500, 4000)
+    nrec = ctx.pick(400, 4000)
     recs = [r for r in pmap(_record, [(i, random_case(ctx.rng)) for i in range(nrec)], chunk=16) if r is not None]
     validate_records(ctx, recs)
     seen = set()
@@ -721,7 +722,7 @@ def selftest(ctx):
         for i, r in enumerate(f["rows"]):
             if r["k"] != NA:
                 r["k"] = i % 2
-    cases, layouts, _ = enumerate_cases(ctx, fills, label="selftest cases")
+    cases, layouts, _ = enumerate_cases(ctx, fills, label="selftest cases", designparts=2)
     known = set(ctx.known)
 
     def items_for(pred, limit=50):
